@@ -273,7 +273,9 @@ impl<'a, W: 'static, R: 'static, T: 'static> RuntimeScope<'a, W, R, T> {
             XExpr::LiteralInt(i) => {
                 Ok(ManagedXValue::new(XValue::Int(i.clone()), rt)?.into())
             }
-            XExpr::LiteralFloat(r) => Ok(ManagedXValue::new(XValue::Float(*r), rt)?.into()),
+            XExpr::LiteralFloat(r) => {
+                Ok(ManagedXValue::from_result(XValue::float(*r, &rt)?, rt)?.into())
+            }
             XExpr::LiteralString(s) => Ok(ManagedXValue::new(
                 XValue::String(Box::new(FencedString::from_string(s.clone()))),
                 rt,
